@@ -129,7 +129,13 @@ func (s *Sim) checkArrival(n *RecvNode, a *arrival) {
 				hs = append(hs, nm+":"+short(h))
 			}
 			sort.Strings(hs)
-			s.violate(prop, "delivered-content-not-announced", "file %s arrived with md5 %s which the sender never announced for it (announced: %v)", a.Path, short(a.MD5), hs)
+			if s.versionsInFlightTogether(src, strings.TrimPrefix(a.Path, src+"/")) || s.versionsInFlightTogetherAny(src, ann) {
+				// its own oracle id: parts of two versions of the name were being
+				// received at the same time (see spans.go, known finding)
+				s.violate(prop, "delivered-mixture-of-versions-in-flight-together", "file %s arrived with md5 %s, the content of no announced version (announced: %v); parts of two versions of the name were being received at the same time", a.Path, short(a.MD5), hs)
+			} else {
+				s.violate(prop, "delivered-content-not-announced", "file %s arrived with md5 %s which the sender never announced for it (announced: %v)", a.Path, short(a.MD5), hs)
+			}
 		} else if s.versionWithMD5(name, a.MD5) == nil {
 			s.violate(prop, "delivered-content-not-a-source-version", "file %s arrived with md5 %s, not the content of any version of source %s", a.Path, short(a.MD5), name)
 		} else if s.logHas(n, src, name, a.MD5) == 0 {
